@@ -1,6 +1,7 @@
 """Worker-side realisation of value worlds (C10 / C11): classes with builtins,
 named values, value-dependent annotations with logging user predicates."""
 
+import json
 import linecache
 import typing
 
@@ -71,7 +72,7 @@ class ValueWorld:
             return {"c": self.class_of(o), "name": n, "v": {"t": "obj", "v": -1}}
 
     def pred(self, term):
-        key = (term["bound"]["c"], tuple(term["holds"]))
+        key = (json.dumps(term["bound"], sort_keys=True), tuple(term["holds"]))
         if key in self.preds:
             return self.preds[key]
         holds = set(term["holds"])
@@ -93,6 +94,20 @@ class ValueWorld:
             return self.classes[t["c"]]
         if k == "dep":
             # identical terms are one annotation object (Dependent[...] creates a new type per call)
+            b = t["bound"]
+            if b["k"] == "union":
+                # the bound written as a union of classes: A | B or typing.Union[A, B]
+                key = ("dep", json.dumps(b, sort_keys=True), tuple(t["holds"]))
+                if key not in self.tcache:
+                    members = [self.classes[a["c"]] for a in b["args"]]
+                    if b.get("spell") == "typing":
+                        bound = typing.Union[tuple(members)]
+                    else:
+                        bound = members[0]
+                        for m_ in members[1:]:
+                            bound = bound | m_
+                    self.tcache[key] = Dependent[bound, self.pred(t)]
+                return self.tcache[key]
             key = ("dep", t["bound"]["c"], tuple(t["holds"]))
             if key not in self.tcache:
                 self.tcache[key] = Dependent[self.classes[t["bound"]["c"]], self.pred(t)]
